@@ -22,7 +22,7 @@
    handle: Iter/Release.v models Release itself), iterator errors (Iter/IterErr.v), the ErrClosed branch of
    newRawIterator (em == nil on a closed DB), iterator sampling, the table cache (tOps.open = open_table on
    the file's bytes).  Go panics and exhausted fuel are explicit.  Model file: definitions only. *)
-From GL Require Import Base.Bytes Base.Order Codec.IKey Codec.Block Codec.Table Lsm.Pick Lsm.ReadPath.
+From GL Require Import Base.Bytes Base.Order Codec.IKey Codec.Block Codec.Table Lsm.Lsm Lsm.Pick Lsm.ReadPath.
 From GL Require Base.Cursor Mem.MemDB.
 From GL Require Import Iter.Cursor Iter.Merged Iter.Indexed Iter.DBIter.
 From Coq Require Import ZArith.
@@ -265,3 +265,30 @@ Section IterPath.
     | Some s0 => db_run c p raw_state raw_step raw_obs seq strict fuel s0 ms
     end.
 End IterPath.
+
+(* ------------------------------------------------------------------ the SPEC, from the L1 abstraction *)
+(* the stored entries of an L1 state (Lsm/Lsm.v: buffers and tables as entry lists) in internal-key order,
+   in the vocabulary of Iter/DBIter.v; live_pairs of this list at a sequence number = the pairs a reader
+   at that sequence number must see *)
+Definition entry_kv (e : Lsm.entry) : DBIter.entry := (e_ikey e, e_val e).
+Definition lsm_entries (c : comparer) (st : lstate) : list DBIter.entry :=
+  merge_lists (icmp c) [map entry_kv (all_entries st)].
+
+(* the pairs with Start <= key < Limit in the user order (nil slice = None, nil bound = None) *)
+Definition range_view (c : comparer) (slice : option krange) (l : list (bytes * bytes)) : list (bytes * bytes) :=
+  match slice with
+  | None => l
+  | Some (a, b) => filter (fun kv => DBIter.in_range c a b (fst kv)) l
+  end.
+
+(* THE LIST a DB iterator at sequence number s over [slice] must walk *)
+Definition lsm_view (c : comparer) (p : kparams) (s : N) (slice : option krange) (st : lstate) : list (bytes * bytes) :=
+  range_view c slice (live_pairs c p s (lsm_entries c st)).
+
+(* what the caller must respect: keys are byte strings *)
+Definition umove_wf (m : move bytes) : Prop := match m with MSeek k => wf_bytes k | _ => True end.
+Definition range_wf (slice : option krange) : Prop :=
+  match slice with
+  | None => True
+  | Some (a, b) => (forall k, a = Some k -> wf_bytes k) /\ (forall k, b = Some k -> wf_bytes k)
+  end.
